@@ -11,6 +11,10 @@
 //! its violations), the first batch of a fix run comes from a rule lint reports, and with the layout
 //! rules selected (alone, or mixed with rewriting rules in the classes built for that) fix(fix x) = fix x.
 //! The three hypotheses of the idempotence theorem are monitored per input.
+//! Classes added later widen the explored space without moving the earlier inputs (own generator states): noqa directives,
+//! limits put on an edited line, mixed selections; comments at structural boundaries; every layout option of the
+//! configuration file at its non-default values (kept only where the option makes a difference). In the last two groups fix is
+//! repeated through `lint_string(fix = true)` with the long-lived and with fresh linters.
 use std::cell::RefCell;
 use std::collections::HashMap;
 use std::rc::Rc;
@@ -62,6 +66,9 @@ enum Derive {
     /// flag is not looked at: CV05, ST01, … rewrite code without declaring themselves fix-compatible),
     /// or of the longest line when there is none) + d
     LimitAtEdited { d: i64, k: usize, only_edited: bool },
+    /// keep the input only if the layout options of its configuration make a difference on it: what lint reports or what
+    /// fix returns differs from the same run without them (same dialect, rules and `limit`)
+    OptionsMatter { limit: Option<usize> },
 }
 
 struct Item {
@@ -81,6 +88,11 @@ fn item_json(it: &Item) -> Value {
 fn reported(linter: &Linter, sql: &str) -> Option<Vec<(usize, &'static str, bool)>> {
     let l = catch(|| linter.lint_string(sql, None, false)).ok()?;
     Some(l.violations.iter().map(|v| (v.line_no, v.rule.as_ref().map(|r| r.code).unwrap_or(""), v.fixable)).collect())
+}
+
+fn before_of(linter: &Linter, sql: &str) -> Option<Vec<(usize, usize, &'static str)>> {
+    let l = catch(|| linter.lint_string(sql, None, false)).ok()?;
+    Some(l.violations.iter().map(|v| (v.line_no, v.line_pos, v.rule.as_ref().map(|r| r.code).unwrap_or(""))).collect())
 }
 
 /// Own light disturbance of layout and capitalisation for the classes added later (independent of `c04::perturb`, so
@@ -129,6 +141,188 @@ fn ruffle(rng: &mut Rng, text: &str) -> String {
     out
 }
 
+/// Where a source line ends, seen without parsing: in code (with the last code character and whether the line already
+/// carries a line comment), or inside a string / block comment that continues on the next line.
+struct LineEnd {
+    in_code: bool,
+    has_line_comment: bool,
+    last_code: u8,
+}
+fn line_ends(text: &str) -> Vec<LineEnd> {
+    let b = text.as_bytes();
+    let mut out = vec![];
+    let (mut i, mut quote, mut block) = (0usize, 0u8, false);
+    let (mut line_comment, mut last_code) = (false, 0u8);
+    while i <= b.len() {
+        if i == b.len() || b[i] == b'\n' {
+            if i < b.len() || !text.ends_with('\n') {
+                out.push(LineEnd { in_code: quote == 0 && !block, has_line_comment: line_comment, last_code });
+            }
+            line_comment = false;
+            last_code = 0;
+            i += 1;
+            continue;
+        }
+        let c = b[i];
+        if line_comment {
+        } else if block {
+            if c == b'*' && b.get(i + 1) == Some(&b'/') {
+                block = false;
+                i += 1;
+            }
+        } else if quote != 0 {
+            if c == quote {
+                quote = 0;
+            }
+        } else if c == b'\'' || c == b'"' || c == b'`' {
+            quote = c;
+            last_code = c;
+        } else if (c == b'-' && b.get(i + 1) == Some(&b'-')) || c == b'#' {
+            line_comment = true;
+        } else if c == b'/' && b.get(i + 1) == Some(&b'*') {
+            block = true;
+            i += 1;
+        } else if !c.is_ascii_whitespace() {
+            last_code = c;
+        }
+        i += 1;
+    }
+    out
+}
+
+/// Comments at structural boundaries: a comment behind the code of a line (block or inline) and / or comment-only lines
+/// directly after it, at line ends chosen by `mode`: 0 = any line end (one in three), 1 = every line whose code ends
+/// with a closing bracket (or a closing bracket and a comma), 2 = every line whose code ends with a comma, 3 = every
+/// line end. Strings and existing comments are left alone; no blank line is added or removed.
+fn commentate(rng: &mut Rng, text: &str, mode: usize) -> String {
+    if !text.is_ascii() {
+        return text.to_string();
+    }
+    let ends = line_ends(text);
+    let lines: Vec<&str> = text.split_inclusive('\n').collect();
+    let mut out = String::with_capacity(text.len() + 64);
+    let mut n = 0usize;
+    for (i, l) in lines.iter().enumerate() {
+        let body = l.trim_end_matches(['\n', '\r']);
+        let nl = &l[body.len()..];
+        let Some(e) = ends.get(i) else {
+            out.push_str(l);
+            continue;
+        };
+        let code = body.trim_end();
+        let closer = e.last_code == b')' || (e.last_code == b',' && code.trim_end_matches(',').trim_end().ends_with(')'));
+        let chosen = e.in_code
+            && !body.trim().is_empty()
+            && match mode {
+                0 => rng.chance(1, 3),
+                1 => closer,
+                2 => e.last_code == b',',
+                _ => true,
+            };
+        if !chosen {
+            out.push_str(l);
+            continue;
+        }
+        out.push_str(body);
+        let last = nl.is_empty();
+        if !e.has_line_comment {
+            n += 1;
+            match rng.below(if last { 3 } else { 4 }) {
+                0 => out.push_str(&format!("  /* c{} */", n)),
+                1 => out.push_str(&format!(" -- c{}", n)),
+                2 => out.push_str(&format!(" /* c{} */ -- d{}", n, n)),
+                _ => {}
+            }
+        }
+        out.push_str(nl);
+        if !last {
+            let indent = &body[..body.len() - body.trim_start().len()];
+            for _ in 0..[0usize, 1, 1, 2, 3][rng.below(5)] {
+                n += 1;
+                if rng.chance(1, 2) {
+                    out.push_str(indent);
+                }
+                if rng.chance(1, 4) {
+                    out.push_str(&format!("/* e{} */", n));
+                } else {
+                    out.push_str(&format!("-- e{}", n));
+                }
+                out.push_str(nl);
+            }
+        }
+    }
+    out
+}
+
+/// Unformatted text: line breaks in code (not behind a line comment, not inside a string or block comment, not at a
+/// blank line) become a space, three out of four; the line a rule has to break again keeps what was behind it.
+fn joinlines(rng: &mut Rng, text: &str) -> String {
+    if !text.is_ascii() {
+        return text.to_string();
+    }
+    let ends = line_ends(text);
+    let lines: Vec<&str> = text.split_inclusive('\n').collect();
+    let mut out = String::with_capacity(text.len());
+    let mut joined = false;
+    for (i, l) in lines.iter().enumerate() {
+        let l = if joined { l.trim_start_matches([' ', '\t']) } else { l };
+        let body = l.trim_end_matches(['\n', '\r']);
+        let next_blank = lines.get(i + 1).map(|n| n.trim().is_empty()).unwrap_or(true);
+        joined = ends.get(i).is_some_and(|e| e.in_code && !e.has_line_comment) && !body.trim().is_empty() && !next_blank && l.len() > body.len() && rng.chance(3, 4);
+        if joined {
+            out.push_str(body.trim_end());
+            out.push(' ');
+        } else {
+            out.push_str(l);
+        }
+    }
+    out
+}
+
+/// The layout options of the configuration file, each with its values other than the default and with what a text has to
+/// contain (upper-cased) for the option to have something to act on (candidates are drawn among such texts; whether the
+/// option then makes a difference is decided by running lint and fix with and without it).
+const KNOBS: &[(&str, &str, &[&str], &[&str])] = &[
+    ("rules:layout.long_lines", "ignore_comment_lines", &["True"], &["--", "/*"]),
+    ("rules:layout.long_lines", "ignore_comment_clauses", &["True"], &["COMMENT"]),
+    ("rules:layout.select_targets", "wildcard_policy", &["multiple"], &["*"]),
+    ("indentation", "indent_unit", &["tab"], &["\n"]),
+    ("indentation", "tab_space_size", &["2", "8"], &["\n"]),
+    ("indentation", "indented_joins", &["True"], &["JOIN"]),
+    ("indentation", "indented_ctes", &["True"], &["WITH"]),
+    ("indentation", "indented_using_on", &["False"], &[" ON ", "USING", "\nON"]),
+    ("indentation", "indented_on_contents", &["False"], &[" ON ", "\nON"]),
+    ("indentation", "indented_then", &["False"], &["THEN"]),
+    ("indentation", "indented_then_contents", &["False"], &["THEN"]),
+    ("indentation", "allow_implicit_indents", &["True"], &["WHERE", " ON ", "CASE"]),
+    ("indentation", "trailing_comments", &["after"], &["--", "/*"]),
+    ("layout:type:comma", "line_position", &["leading"], &[","]),
+    ("layout:type:binary_operator", "line_position", &["trailing"], &["+", "-", "*", "/", "||", " AND ", " OR "]),
+    ("layout:type:comparison_operator", "line_position", &["trailing"], &["=", "<", ">"]),
+];
+/// configuration text (behind the `[sqruff]` keys) for a choice of (knob, value index) pairs
+fn knob_config(limit: Option<usize>, choice: &[(usize, usize)]) -> String {
+    let mut out = String::new();
+    if let Some(l) = limit {
+        out.push_str(&format!("max_line_length = {}\n", l));
+    }
+    let mut secs: Vec<&str> = vec![];
+    for (k, _) in choice {
+        if !secs.contains(&KNOBS[*k].0) {
+            secs.push(KNOBS[*k].0);
+        }
+    }
+    for s in secs {
+        out.push_str(&format!("[sqruff:{}]\n", s));
+        for (k, v) in choice {
+            if KNOBS[*k].0 == s {
+                out.push_str(&format!("{} = {}\n", KNOBS[*k].1, KNOBS[*k].2[*v]));
+            }
+        }
+    }
+    out
+}
+
 fn append_to_line(sql: &str, line_no: usize, what: &str) -> String {
     let mut out = String::with_capacity(sql.len() + what.len());
     for (i, l) in sql.split_inclusive('\n').enumerate() {
@@ -160,7 +354,7 @@ fn derive_limit(linter: &Linter, sql: &str, d: i64, k: usize) -> Option<(i64, bo
 
 fn derive_sql(linter: &Linter, sql: &str, d: Derive) -> Option<String> {
     match d {
-        Derive::None | Derive::LimitAtEdited { .. } => Some(sql.to_string()),
+        Derive::None | Derive::LimitAtEdited { .. } | Derive::OptionsMatter { .. } => Some(sql.to_string()),
         Derive::NoqaAll => Some(format!("-- noqa: disable=all\n{}", sql)),
         Derive::NoqaAllBlock => Some(format!("/* noqa: disable=all */\n{}", sql)),
         Derive::NoqaRange => {
@@ -200,6 +394,21 @@ fn derive_sql(linter: &Linter, sql: &str, d: Derive) -> Option<String> {
             Some(cur)
         }
     }
+}
+/// how often fix is repeated beyond the two recorded runs (classes added for C17-4 / C17-5, and replays)
+fn repeats(cls: &str) -> usize {
+    if cls.starts_with("comment-") || cls.starts_with("layout-config") || cls == "replay" { 3 } else { 0 }
+}
+fn first_diff(a: &str, b: &str) -> usize {
+    a.bytes().zip(b.bytes()).position(|(x, y)| x != y).unwrap_or(a.len().min(b.len()))
+}
+/// `a` from a little before the first byte at which it differs from `b`
+fn from_diff(a: &str, b: Option<&String>) -> String {
+    let mut at = b.map(|b| first_diff(a, b)).unwrap_or(0).saturating_sub(80);
+    while !a.is_char_boundary(at) {
+        at -= 1;
+    }
+    trunc(&a[at..], 240)
 }
 fn cfg(it: &Item) -> String {
     format!("[sqruff]\ndialect = {}\nrules = {}\n{}", it.dialect, it.rules, it.extra)
@@ -381,6 +590,20 @@ fn run_one(ls: &mut Linters, it: &Item, out: &mut Buf) {
                 _ => return,
             }
         }
+        if let Derive::OptionsMatter { limit } = it.derive {
+            let seen = |l: &Linter| (before_of(l, &it.sql), catch(|| l.lint_string(&it.sql, None, true).fix_string()).ok());
+            let with = seen(linter);
+            let base = Item { cls: it.cls, dialect: it.dialect.clone(), rules: it.rules.clone(), layout: it.layout, extra: knob_config(limit, &[]), sql: String::new(), derive: Derive::None };
+            let base_key = cfg(&base);
+            if !get_linter(ls, &base_key, out) {
+                return;
+            }
+            out.count("layout_config_candidates", 1);
+            if seen(&ls[&base_key]) == with {
+                out.count("layout_config_candidates_dropped (the options make no difference to lint or fix)", 1);
+                return;
+            }
+        }
         masked_some = before.map(|b| !b.is_empty()).unwrap_or(false);
         derived = Item { cls: it.cls, dialect: it.dialect.clone(), rules: it.rules.clone(), layout: it.layout, extra, sql, derive: Derive::None };
         let key = cfg(&derived);
@@ -446,10 +669,34 @@ fn run_one(ls: &mut Linters, it: &Item, out: &mut Buf) {
         }
         Err(_) => out.direct("deterministic", false, &format!("c17-nondet-{:016x}", h), "second fix run of the same input panicked", input.clone()),
     }
+    // the classes built around positions a rule has to choose among (comments, layout options): fix is repeated through the
+    // other public entry point (`lint_string(.., fix = true)`, no hook installed), with the long-lived linter and with
+    // fresh ones; every run must give the text of the first
+    if repeats(it.cls) > 0 {
+        let mut texts: Vec<String> = vec![];
+        for k in 0..repeats(it.cls) {
+            let fresh = if k % 2 == 1 { catch(|| Linter::new(FluffConfig::from_source(&key, None), None, None, true)).ok() } else { None };
+            let l = fresh.as_ref().unwrap_or(linter);
+            match catch(|| l.lint_string(&it.sql, None, true).fix_string()) {
+                Ok(t) => texts.push(t),
+                Err(_) => texts.push("<panic>".into()),
+            }
+        }
+        out.count("inputs_fixed_repeatedly (same linter and fresh linters)", 1);
+        let other = texts.iter().find(|t| **t != r1.fixed);
+        out.direct(
+            "deterministic-repeated",
+            other.is_none(),
+            &format!("c17-nondet-{:016x}", h),
+            &format!("{} fix runs of the same input with the same configuration gave different texts, from byte {} on: {:?} / {:?}", texts.len() + 1, other.map(|o| first_diff(&r1.fixed, o)).unwrap_or(0), from_diff(&r1.fixed, other), from_diff(other.map(|s| s.as_str()).unwrap_or(""), Some(&r1.fixed))),
+            input.clone(),
+        );
+    }
 
     // ---- direct: clean files are left alone
     let lint0 = catch(|| linter.lint_string(&it.sql, None, false));
-    if let (Ok(l0), Some(tab)) = (&lint0, mask_table(linter, &it.sql)) {
+    // (the classes added for layout options and comments have no directives: the mask step is not replayed for them)
+    if let (Ok(l0), Some(tab)) = (&lint0, if repeats(it.cls) > 0 && it.cls != "replay" { None } else { mask_table(linter, &it.sql) }) {
         // ---- correspondence: the mask step of the loop (group `mask`): from the raw crawl results and the mask's answers
         // the model predicts how many violations of each rule lint reports and which rule produces the first batch
         let reported: Vec<usize> = linter.rules().iter().map(|r| l0.violations.iter().filter(|v| v.rule.as_ref().map(|x| x.code) == Some(r.code())).count()).collect();
@@ -520,7 +767,7 @@ fn run_one(ls: &mut Linters, it: &Item, out: &mut Buf) {
                 out.hyp("H_converged: both phases exit by no-change and the second run has no batch", "diagnostic", h_conv, json!({"input":input}));
                 let cause = if !h_conv { "H_converged fails" } else if !h_reparse { "H_reparse fails" } else { "hypotheses hold" };
                 let second: std::collections::BTreeSet<&str> = r3.rec.batches.iter().filter(|b| b.3).map(|b| linter.rules()[b.2].code()).collect();
-                let cause = if it.rules.starts_with(LAYOUT) && it.rules.len() == LAYOUT.len() || second.is_empty() { cause.to_string() } else { format!("{}; the second run applies fixes of {:?}", cause, second) };
+                let cause = if it.rules.starts_with(LAYOUT) && it.rules.len() == LAYOUT.len() && repeats(it.cls) == 0 || second.is_empty() { cause.to_string() } else { format!("{}; the second run applies fixes of {:?}", cause, second) };
                 if !it.rules.starts_with("LT") || it.rules.len() > LAYOUT.len() {
                     out.count("idempotence_checked_on_mixed_selection (layout + rewriting rules)", 1);
                 }
@@ -687,6 +934,114 @@ pub fn main(args: &Args) {
             }
             let extra = EXTRA[(i / 8) % EXTRA.len()];
             items.push(Item { cls: "mixed-corpus", dialect: f.dialect.clone(), rules: MIXED[(i / 8) % MIXED.len()].into(), layout: true, extra: extra.into(), sql: f.text.clone(), derive: Derive::None });
+        }
+        // ------------------------------------------------------------------------------------------------------
+        // Classes added after the seeded changes C17-4 / C17-5 (appended, own generator state `0x170003`).
+        let mut rng3 = Rng::new(0x17_0003);
+        const SEL3: &[&str] = &[LAYOUT, "core", LAYOUT, CONVENTION];
+        // the reproducer of the repaired LT05 defect (results on ignored comment lines were removed in hash-set order)
+        for (extra, sql) in [
+            ("max_line_length = 30\n[sqruff:rules:layout.long_lines]\nignore_comment_lines = True\n", "SELECT\n    aaaaaaaaaaaaaaaaaaaa + bbbbbbbbbbbbbbbbbbbb AS x, -- c1\n    cccccccccccccccccccc + dddddddddddddddddddd AS y, -- c2\n    eeeeeeeeeeeeeeeeeeee + ffffffffffffffffffff AS z\nFROM t\n"),
+        ] {
+            items.push(Item { cls: "comment-regression", dialect: "ansi".into(), rules: LAYOUT.into(), layout: true, extra: extra.into(), sql: sql.into(), derive: Derive::None });
+        }
+        // (d) comments at structural boundaries: behind the code of a line and on lines of their own directly after it
+        // (after closing brackets, after commas, anywhere). Rules that place or move things relative to line starts have to
+        // choose among several candidate positions there. Fix is repeated on these inputs (same linter and fresh ones).
+        let mut n = 0usize;
+        for (i, (_, s)) in snippets.iter().enumerate() {
+            if s.len() > 2500 || s.trim().is_empty() || !s.contains('\n') || (!thorough && i % 6 != 4) || (thorough && i % 2 != 0) {
+                continue;
+            }
+            let sql = commentate(&mut rng3, s, n % 4);
+            let extra = ["", "", "max_line_length = 40\n"][(n / 4) % 3];
+            items.push(Item { cls: "comment-rule-snippet", dialect: "ansi".into(), rules: SEL3[(n / 2) % SEL3.len()].into(), layout: true, extra: extra.into(), sql, derive: Derive::None });
+            n += 1;
+        }
+        let n_com = if thorough { 1500 } else { 220 };
+        for k in 0..n_com {
+            let f = &corpus[rng3.below(corpus.len())];
+            if f.text.len() > 3000 {
+                continue;
+            }
+            let base = if k % 4 == 0 { ruffle(&mut rng3, &f.text) } else { f.text.clone() };
+            let sql = commentate(&mut rng3, &base, k % 3);
+            let extra = ["", "max_line_length = 60\n", "", "max_line_length = 40\n"][rng3.below(4)];
+            items.push(Item { cls: "comment-corpus", dialect: f.dialect.clone(), rules: SEL3[rng3.below(SEL3.len())].into(), layout: true, extra: extra.into(), sql, derive: Derive::None });
+        }
+        // (e) layout configurations: every layout option of the configuration file (indentation section, line positions of
+        // commas / operators, the options of LT05 and LT09) at each value other than its default, alone and in random
+        // combinations, x several line-length limits, on rule snippets and fixture files as they are, ruffled, with comments
+        // at line ends, and unformatted (lines joined, so that the run has to break them again).
+        let mut pool: Vec<Vec<(usize, usize)>> = vec![];
+        for (k, knob) in KNOBS.iter().enumerate() {
+            for v in 0..knob.2.len() {
+                pool.push(vec![(k, v)]);
+            }
+        }
+        for _ in 0..(if thorough { 24 } else { 8 }) {
+            let mut c: Vec<(usize, usize)> = vec![];
+            for _ in 0..rng3.range(2, 4) {
+                let k = rng3.below(KNOBS.len());
+                if !c.iter().any(|x| x.0 == k) {
+                    c.push((k, rng3.below(KNOBS[k].2.len())));
+                }
+            }
+            c.sort();
+            pool.push(c);
+        }
+        let layout_snips: Vec<&String> = snippets.iter().filter(|(n, s)| n.starts_with("LT") && s.len() <= 2500 && !s.trim().is_empty()).map(|(_, s)| s).collect();
+        for (ci, choice) in pool.iter().enumerate() {
+            // every choice of options draws its texts from a generator state of its own (an option added later moves nothing)
+            let mut rng3 = Rng::new(if choice.len() == 1 { 0x17_1000 + (choice[0].0 * 8 + choice[0].1) as u64 } else { 0x17_2000 + ci as u64 });
+            let per = match (choice.len() == 1, thorough) {
+                (true, false) => 100,
+                (true, true) => 240,
+                (false, false) => 50,
+                (false, true) => 100,
+            };
+            let hints: Vec<&str> = choice.iter().flat_map(|(k, _)| KNOBS[*k].3.iter().cloned()).collect();
+            let about_comments = hints.contains(&"--");
+            for j in 0..per {
+                // a text that has what the options act on (a few draws), as it is / ruffled / with comments / unformatted
+                let mut drawn: Option<(String, String)> = None;
+                for _ in 0..10 {
+                    let (dialect, text) = if j % 3 == 2 || layout_snips.is_empty() {
+                        let f = &corpus[rng3.below(corpus.len())];
+                        (f.dialect.clone(), f.text.clone())
+                    } else if j % 3 == 1 {
+                        ("ansi".to_string(), snippets[rng3.below(snippets.len())].1.clone())
+                    } else {
+                        ("ansi".to_string(), layout_snips[rng3.below(layout_snips.len())].clone())
+                    };
+                    if text.len() > 2500 || text.trim().is_empty() {
+                        continue;
+                    }
+                    // options about comments get texts with comments (most of them on lines the run has to break again)
+                    let sql = match if about_comments { [2, 3, 3][rng3.below(3)] } else { rng3.below(5) } {
+                        0 => text,
+                        1 => ruffle(&mut rng3, &text),
+                        2 => {
+                            let m = rng3.below(4);
+                            commentate(&mut rng3, &text, m)
+                        }
+                        3 => {
+                            let t = joinlines(&mut rng3, &text);
+                            commentate(&mut rng3, &t, 3)
+                        }
+                        _ => joinlines(&mut rng3, &text),
+                    };
+                    let up = sql.to_ascii_uppercase();
+                    if hints.iter().any(|h| up.contains(h)) {
+                        drawn = Some((dialect, sql));
+                        break;
+                    }
+                }
+                let Some((dialect, sql)) = drawn else { continue };
+                let limit = [None, Some(60), Some(40), Some(50), Some(30), Some(24)][rng3.below(6)];
+                let rules = [LAYOUT, LAYOUT, "core", LAYOUT, CONVENTION][rng3.below(5)];
+                items.push(Item { cls: if choice.len() == 1 { "layout-config" } else { "layout-config-combined" }, dialect, rules: rules.into(), layout: true, extra: knob_config(limit, choice), sql, derive: Derive::OptionsMatter { limit } });
+            }
         }
     }
     // sqruff does not give back the memory of the trees it lints (about 1.5 MB per explored input): big item lists are
